@@ -1415,6 +1415,17 @@ def build_config(c):
         axes = None if c["axes"] is None else tuple(c["axes"])
         return cls(tuple(c["shape"]), axes=axes, cdiff=c["cdiff"], input_dtype=np.dtype(c["dtype"]).type, jit=jit,
                    **{f: v for f, v in c["flags"].items()})
+    if k == "Conv":
+        import scico.numpy as snp
+        cls = linop.Convolve if c["cls"] == "Convolve" else linop.ConvolveByX
+        dt = np.dtype(c["dtype"]).type
+
+        def mk(scale):
+            return cls(snp.ones(tuple(c["hshape"]), dtype=dt) * scale, tuple(c["shape"]), input_dtype=dt, mode=c["mode"], jit=jit)
+        A = mk(1.0)
+        f = c["form"]
+        return {"id": lambda: A, "A+B": lambda: A + mk(2.0), "A-B": lambda: A - mk(2.0), "2*": lambda: 2.0 * A,
+                "*2": lambda: A * 2.0, "/2": lambda: A / 2.0}[f]()
     if k == "CC":
         import scico.numpy as snp
         h = snp.ones(tuple(c["hshape"]), dtype=np.dtype(c["hdtype"]).type)
@@ -1473,6 +1484,15 @@ def config_spec(c):
     if k in ("Polar", "Cyl", "Sph"):
         n = sum(1 for v in c["flags"].values() if v)
         return [shp, shp if n == 1 else [shp] * n]
+    if k == "Conv":
+        first, second = (shp, list(c["hshape"])) if c["cls"] == "Convolve" else (list(c["hshape"]), shp)
+        if c["mode"] == "full":
+            out = [n + m - 1 for n, m in zip(first, second)]
+        elif c["mode"] == "same":
+            out = list(first)
+        else:
+            out = [abs(n - m) + 1 for n, m in zip(first, second)]
+        return [shp, out]
     if k == "CC":
         nd = len(shp)                      # ndims default: all axes of the input
         hs = list(c["hshape"])
@@ -1583,6 +1603,86 @@ def config_failures(c, ob):
     return out
 
 
+def func_failures(c):
+    """scico.function.Function with per-argument shapes / dtypes: slice(i), jacobian(i), jvp, vjp, join"""
+    import scico.numpy as snp
+    from scico.function import Function
+    shapes = tuple(tuple(s_) for s_ in c["shapes"])
+    dts = [np.dtype(d).type for d in c["dtypes"]]
+    i = c["index"]
+
+    def fn(*a):
+        r = 2.0 * a[0]
+        for t in a[1:]:
+            r = r * t
+        return r
+    out = []
+    F = Function(shapes, eval_fn=fn, input_dtypes=tuple(dts))
+    args = [snp.ones(s_, dtype=d) for s_, d in zip(shapes, dts)]
+    osh, odt = canon_shape(F.output_shape), dtn(F.output_dtype)
+    y = F(*args)
+    if [canon_shape(y.shape), dtn(y.dtype)] != [osh, odt]:
+        out.append(("Function: actual output differs from the declared output shape / dtype", [osh, odt], [canon_shape(y.shape), dtn(y.dtype)], "declared = actual"))
+    want_in = [canon_shape(shapes[i]), c["dtypes"][i]]
+    fixed = tuple(args[:i] + args[i + 1:])
+
+    def check(nm, A, adj):
+        got_in = [canon_shape(A.input_shape), dtn(A.input_dtype)]
+        if got_in != want_in:
+            out.append((f"{nm}: declared input shape / dtype is not that of the free argument", want_in, got_in, "operator calculus"))
+        if [canon_shape(A.output_shape), dtn(A.output_dtype)] != [osh, odt]:
+            out.append((f"{nm}: declared output shape / dtype is not the Function's", [osh, odt],
+                        [canon_shape(A.output_shape), dtn(A.output_dtype)], "operator calculus"))
+        try:
+            r = A(snp.ones(A.input_shape, dtype=A.input_dtype))
+            got = [canon_shape(r.shape), dtn(r.dtype)]
+        except Exception as e:
+            got = "raise:" + type(e).__name__
+        if got != [canon_shape(A.output_shape), dtn(A.output_dtype)]:
+            out.append((f"{nm}: evaluation on the declared input does not yield the declared output",
+                        [canon_shape(A.output_shape), dtn(A.output_dtype)], got, "declared = actual"))
+        if adj:
+            try:
+                r = A.adj(snp.ones(A.output_shape, dtype=A.output_dtype))
+                got = canon_shape(r.shape)
+            except Exception as e:
+                got = "raise:" + type(e).__name__
+            if got != canon_shape(A.input_shape):
+                out.append((f"{nm}: adj on the declared output does not return the declared input shape",
+                            canon_shape(A.input_shape), got, "adjoint conforms"))
+    check("slice", F.slice(i, *fixed), False)
+    check("jacobian", F.jacobian(i, *args), True)
+    try:
+        Fu, Jv = F.jvp(i, snp.ones(shapes[i], dtype=dts[i]), *args)
+        got = [canon_shape(Fu.shape), canon_shape(Jv.shape)]
+    except Exception as e:
+        got = "raise:" + type(e).__name__
+    if got != [osh, osh]:
+        out.append(("jvp: result shapes are not the declared output shape", [osh, osh], got, "declared = actual"))
+    try:
+        Fu, G = F.vjp(i, *args)
+        got = canon_shape(G(snp.ones(tuple(osh), dtype=np.dtype(odt).type)).shape)
+    except Exception as e:
+        got = "raise:" + type(e).__name__
+    if got != canon_shape(shapes[i]):
+        out.append(("vjp: result shape is not the free argument's shape", canon_shape(shapes[i]), got, "declared = actual"))
+    if len(set(c["dtypes"])) == 1 and i == 0:
+        J = F.join()
+        if canon_shape(J.input_shape) != [list(s_) for s_ in shapes] or dtn(J.input_dtype) != c["dtypes"][0]:
+            out.append(("join: declared input is not the block of the arguments", [c["shapes"], c["dtypes"][0]],
+                        [canon_shape(J.input_shape), dtn(J.input_dtype)], "operator calculus"))
+        r = J(snp.blockarray(args))
+        if [canon_shape(r.shape), dtn(r.dtype)] != [osh, odt]:
+            out.append(("join: evaluation does not yield the declared output", [osh, odt], [canon_shape(r.shape), dtn(r.dtype)], "declared = actual"))
+    elif len(set(c["dtypes"])) > 1 and i == 0:
+        try:
+            F.join()
+            out.append(("join: heterogeneous input dtypes are accepted", "ValueError", "constructed", "documented argument range"))
+        except ValueError:
+            pass
+    return out
+
+
 def config_lattice(ctx):
     rng = ctx.rng
     must, more = [], []
@@ -1671,6 +1771,22 @@ def config_lattice(ctx):
     must += [c for c in ccs if c["shape"] == [3, 4] and c["dtype"] in ("float32", "complex64") and len(c["hshape"]) == 2
              and (c["hdtype"] == "complex64") != (c["dtype"] == "complex64")]
     more += [c for c in ccs if c not in must]
+    # Convolve / ConvolveByX: every mode x the arithmetic forms (both operands of the same mode)
+    conv = []
+    for cl in ("Convolve", "ConvolveByX"):
+        for shp, hs in (([16], [3]), ([5, 6], [2, 3])):
+            for mode in ("full", "same", "valid"):
+                for f in ("id", "A+B", "A-B", "2*", "*2", "/2"):
+                    conv.append({"kind": "Conv", "cls": cl, "shape": shp, "hshape": hs, "mode": mode, "form": f, "dtype": "float32"})
+    must += [c for c in conv if c["shape"] == [16] and c["mode"] in ("same", "valid") and c["form"] in ("A+B", "A-B")]
+    more += [c for c in conv if c not in must]
+    # scico.function.Function: arguments of different shapes and dtypes, every index
+    for shapes, dts in (([[3], [2, 3], [1]], ["float32", "complex64", "float32"]),
+                        ([[2, 3], [3]], ["complex64", "float32"]),
+                        ([[4], [4]], ["float64", "float64"])):
+        for i in range(len(shapes)):
+            c = {"kind": "Func", "shapes": shapes, "dtypes": dts, "index": i}
+            (must if len(shapes) == 3 else more).append(c)
     if ctx.quick:
         more = rng.sample([c for c in more if not c.get("jit")], 20)   # the default-jit configurations: thorough tier
     cfgs = must + more
@@ -1684,6 +1800,11 @@ def run_configs(ctx):
     items = {"SAFD": [], "FD": [], "DFT": []}
     metas = {"SAFD": [], "FD": [], "DFT": []}
     for c in cfgs:
+        if c["kind"] == "Func":
+            ctx.count("config:Func", c)
+            for w, exp, got, orc in func_failures(c):
+                ctx.violation("config:Func", w, dict(c), expected=exp, observed=got, oracle=orc)
+            continue
         ob = observe_config(c)
         ctx.count("config:" + c["kind"], c)
         ok = ob["ctor"] is None
@@ -1797,6 +1918,8 @@ def replay(ctx: Ctx, rec):
         return not c2.violations
     if unit.startswith("config:"):
         c = {k: v for k, v in inp.items() if k != "declared"}
+        if c["kind"] == "Func":
+            return not func_failures(c)
         return not config_failures(c, observe_config(c))
     if unit.startswith("sweep:"):
         r = sweep_one(inp["class"], inp["dtype"], inp["form"])
